@@ -16,12 +16,13 @@ Module RF := Generated.RewriteFacts.
    (InputBuffer::cat_of_range); cat0: class of its first character (cat_at_char(begin)). *)
 Record node := mkN {
   nb : nat; ne : nat; bb : nat; be : nat; surf : list N; norm : list N; dform : list N; rform : list N;
+  extra : N;   (* bit 0: A-unit split list non-empty, bit 1: B-unit split list, bit 2: word structure, bit 3: synonym group ids *)
   pos : N; oov : bool; cats : N; cat0 : N }.
 
 Inductive res (A : Type) := Ok (a : A) | ErrRange | PanicIndex.
 Arguments Ok {A} a. Arguments ErrRange {A}. Arguments PanicIndex {A}.
 
-Definition dnode : node := mkN 0 0 0 0 [] [] [] [] 0 false 0 0.
+Definition dnode : node := mkN 0 0 0 0 [] [] [] [] 0 0 false 0 0.
 
 (* WordInfo::normalized_form(): the surface when the stored form is empty *)
 Definition norm_of (n : node) : list N := match norm n with [] => surf n | s => s end.
@@ -38,7 +39,7 @@ Definition merged_numeric (g : list node) (nf : option (list N)) : node :=
   let f := hd dnode g in let l := last g dnode in
   mkN (nb f) (ne l) (bb f) (be l) (concat (map surf g))
       (match nf with Some s => s | None => concat (map norm g) end)
-      (concat (map dform g)) (concat (map rform g)) (pos f) RF.invalid_word_id_is_oov (and_cats g) (cat0 f).
+      (concat (map dform g)) (concat (map rform g)) 0 (pos f) RF.invalid_word_id_is_oov (and_cats g) (cat0 f).
 
 Definition concat_nodes (p : list node) (b e : nat) (nf : option (list N)) : res (list node) :=
   if e <=? b then ErrRange
@@ -50,7 +51,7 @@ Definition concat_nodes (p : list node) (b e : nat) (nf : option (list N)) : res
 Definition merged_oov (g : list node) (pid : N) : node :=
   let f := hd dnode g in let l := last g dnode in
   let s := concat (map surf g) in
-  mkN (nb f) (ne l) (bb f) (be l) s s s [] pid (existsb oov g) (and_cats g) (cat0 f).
+  mkN (nb f) (ne l) (bb f) (be l) s s s [] 0 pid (existsb oov g) (and_cats g) (cat0 f).
 
 Definition concat_oov_nodes (p : list node) (b e : nat) (pid : N) : res (list node) :=
   if e <=? b then ErrRange
@@ -243,7 +244,7 @@ Fixpoint run_plugins (pls : list plugin) (p : list node) : option (res (list nod
 (* observable part of a node: range, surface, normalised / dictionary / reading form, part of speech, OOV flag *)
 Definition node_eqb (a b : node) : bool :=
   Nat.eqb (nb a) (nb b) && Nat.eqb (ne a) (ne b) && Nat.eqb (bb a) (bb b) && Nat.eqb (be a) (be b) && text_eqb (surf a) (surf b) && text_eqb (norm a) (norm b) &&
-  text_eqb (dform a) (dform b) && text_eqb (rform a) (rform b) && N.eqb (pos a) (pos b) && Bool.eqb (oov a) (oov b).
+  text_eqb (dform a) (dform b) && text_eqb (rform a) (rform b) && N.eqb (extra a) (extra b) && N.eqb (pos a) (pos b) && Bool.eqb (oov a) (oov b).
 
 Fixpoint nodes_eqb (a b : list node) : bool :=
   match a, b with
@@ -254,7 +255,7 @@ Fixpoint nodes_eqb (a b : list node) : bool :=
 
 (* the property on the implementation's output: [out] is obtained from [inp] by merging consecutive non-empty groups;
    a merged token covers the union of the ranges, its surface is the concatenation, its part of speech is one the
-   plugins prescribe; a token that is not part of a merge is unchanged (or, for a single numeral with enableNormalize,
+   plugins prescribe, it has no split lists / word structure / synonym ids; a token that is not part of a merge is unchanged (or, for a single numeral with enableNormalize,
    re-normalised: same range, surface, part of speech) *)
 Fixpoint take_group (inp : list node) (e : nat) (acc : list node) : option (list node * list node) :=
   match inp with
@@ -267,10 +268,10 @@ Definition group_ok (allowed_pos : list N) (renorm : bool) (numeric_pos : N) (g 
   match g with
   | [] => false
   | [n] => node_eqb n m ||
-           (renorm && Nat.eqb (nb n) (nb m) && Nat.eqb (bb n) (bb m) && Nat.eqb (be n) (be m) && text_eqb (surf n) (surf m) && N.eqb (pos n) (pos m) && N.eqb (pos n) numeric_pos)
+           (renorm && Nat.eqb (nb n) (nb m) && Nat.eqb (bb n) (bb m) && Nat.eqb (be n) (be m) && text_eqb (surf n) (surf m) && N.eqb (pos n) (pos m) && N.eqb (pos n) numeric_pos && N.eqb (extra m) 0)
   | f :: _ => Nat.eqb (nb f) (nb m) && Nat.eqb (ne (last g dnode)) (ne m) &&
               Nat.eqb (bb f) (bb m) && Nat.eqb (be (last g dnode)) (be m) && text_eqb (concat (map surf g)) (surf m) &&
-              existsb (N.eqb (pos m)) allowed_pos
+              existsb (N.eqb (pos m)) allowed_pos && N.eqb (extra m) 0
   end.
 
 Fixpoint grouping_ok (fuel : nat) (allowed_pos : list N) (renorm : bool) (numeric_pos : N) (inp out : list node) : bool :=
